@@ -224,12 +224,16 @@ pub const RAW_SETS: &[&[&str]] = &[
     &["/\u{fc}n\u{ef}/a1", "/\u{fc}n\u{ef}/b2"],
     &["shop1", "shop2"],
     &["m\u{fc}nchen42.example.com", "m\u{fc}nchen43.example.com"],
+    // ASCII-only patterns whose Perl classes are Unicode-aware: looked up with non-ASCII text
+    &["/t/\\w+x", "/t/\\w+y"],
+    &["/d/\\d+a", "/d/\\d+b", "/d/\\s"],
 ];
 
 pub const RAW_HAYSTACKS: &[&str] = &[
     "/n/aax", "/n/aaay", "/n/ok", "/abx", "/ady", "/acx", "/a/plain", "/z/q", "/xac", "/xcd", "/xbc", "/p/aab", "/p/ac", "/p/a", "/q/", "/q/aaa", "/q/b", "/q/ab", "/q/aac", "/r/12z",
     "/r/1234y", "/r/123y", "/s/a", "b", "c", "/s/", "/u/AB", "/u/ac", "/v/x{", "/v/x", "/v/x{1", "/w/k/a", "/w/k/b", "/y/Ax", "/y/ax", "", "/", "//", "/nope",
     "/color/x", "/colour/x", "/ac", "/abc", "/abbc", "/xz", "/xyz", "/xyyz", "/fr/accueil", "/en/home", "/de", "/kb", "/kab", "/z", "/w",
+    "/t/caf\u{e9}x", "/t/\u{65e5}\u{672c}y", "/t/abx", "/d/\u{661}\u{662}a", "/d/12b", "/d/\u{2003}",
     "/\u{dc}N\u{cf}/a1", "/\u{dc}n\u{ef}/b2", "/\u{fc}n\u{ef}/a1", "\u{17f}hop1", "SHOP2", "shop1", "M\u{dc}NCHEN42.example.com", "m\u{fc}nchen43.EXAMPLE.com",
 ];
 
